@@ -534,6 +534,8 @@ func init() {
 		checkSelectorGrammar(r, ga, "c07")
 		r.importing = "C01"
 		checkBindingModes(r, prog, ga, "c01") // "ALL/ANY with binding": the names printed are the names that were written, each under its own mode
+		r.importing = "C16"
+		checkLiteralFidelity(r, ga) // "the quoted literal": the literal a parser-produced leaf carries is the string written, and a bare one the selector's rendering
 		r.importing = ""
 		r.Technique = "constant-table extraction from the String methods against the documented names; structural-induction obligations on every ExpressionDump method by symbolic execution (event order, argument identity); operator/value pairing for the literal dereference; tree integrity and action typing for termination"
 		r.Explain = "Decides: every operator constant renders as the documented name (exhaustive, pairwise distinct), ALL/ANY and the four binding forms likewise; every composite ExpressionDump writes an opening line, dumps each Expression-typed field of its receiver exactly once in declaration order with (the same writer, the same indent string, level+1), then writes a closing line; every line has a constant format and is prefixed by strings.Repeat(indent, level) (level+1 inside a leaf) — by induction over tree height this is pre-order with one indent level per tree level at every depth; the leaf names its operator through MatchOperator.String, prints the selector through Selector.String (dotted / slash-joined / empty), and dereferences and quotes the literal only for operators the grammar always builds with a literal; children are non-nil and the tree is acyclic and never modified after parsing, so the recursion terminates without panicking. NOT decided: byte-exact layout inside the constant format strings."
